@@ -49,6 +49,8 @@ class RefDEVS:
         self.pause_at = set(program.get("_pause_at", ()))
         self.total_executed = 0
         self.callback_cmds = []    # (name, outcome) of commands issued from handlers
+        self.obs = []              # observations since the last warm-up / initialize
+        self.warm_done = False
 
     # -- scheduling requests -------------------------------------------------
     def _request(self, time, prio, eid):
@@ -87,7 +89,11 @@ class RefDEVS:
             return "fail"
         elif kind == "cmd":
             self._cmd_from_handler(action[1], action[2:])
-        elif kind in ("obs", "draw", "fire", "noop"):
+        elif kind == "obs":
+            self.obs.append((action[1], action[2],
+                             action[3] if len(action) > 3 else None, self.clock))
+            out = None
+        elif kind in ("obsdraw", "draw", "fire", "noop"):
             out = None
         else:
             raise ValueError("unknown action %r" % (action,))
@@ -126,6 +132,8 @@ class RefDEVS:
         self.pending = []
         self.handle = {}
         self.ended_by_handler = False
+        self.obs = []
+        self.warm_done = False
         self.clock = self.start
         self.run_state = INITIALIZED
         self.rep_state = INITIALIZED
@@ -175,6 +183,9 @@ class RefDEVS:
         self.clock = t
         self.trace.append((t, eid))
         failed = False
+        if eid == "W":
+            self.obs = []          # the warm-up resets the simulation statistics
+            self.warm_done = True
         if eid != "W":
             for i, a in enumerate(self.p["events"][str(eid)]):
                 if self._perform(eid, i, a) == "fail":
